@@ -232,12 +232,28 @@ CLAIMS = {
 }
 
 
+# the translator tie added for these properties (DESIGN §4.1), appended to the claim text
+GUARD_TIE = {
+    "C05": "the tests of simplify_epochs / the bounds part of simplify_migration_rates / collapse_demes / the symmetric-search loop in the source",
+    "C07": "the tests of to_ms (counts, indices, times, rates) in the source",
+    "C08": "the tests of build_graph's event branches, applyParams and finaliseGrowth (counts, indices, times, rates, lineage proportions) in the source",
+    "C10": "the WHOLE bodies of assert_close / isclose of Epoch, AsymmetricMigration, Pulse, Deme, Graph and isclose_deme_proportions (every assert, pairing, forwarded tolerance), compiled from the source into Lean predicates,",
+    "C11": "every update statement of in_generations (which attribute is divided, in which loops)",
+    "C14": "predecessors / successors (compiled whole into folds) and the four classification tests of discrete_demographic_events in the source",
+    "C15": "every update statement of rename_demes and its three rejections",
+    "C16": "_no_null_values with its nested helpers (compiled into recursive equations), the tests of _stringify/_unstringify_infinities and the order of helper / codec / resolver calls of every entry point of load_dump.py",
+}
+
+
 def main():
     checks = []
     for pid in props:
         if pid not in CLAIMS:
             continue
-        c = CLAIMS[pid]
+        c = dict(CLAIMS[pid])
+        if pid in GUARD_TIE:
+            c["text"] = c["text"] + (" Translator tie: " + GUARD_TIE[pid] + " are regenerated from /repo's AST as Lean definitions on every run and proved "
+                                     "to be what the Model computes, for all inputs (guards_tie_* / guard_*_meaning theorems, registered obligations).")
         checks.append({
             "property_id": pid,
             "quick_cmd": f"./check {pid} --tier quick",
